@@ -391,7 +391,7 @@ func (cs *Contracts) loadFile(path string) error {
 
 func splitTags(s string) []string {
 	var out []string
-	for _, t := range strings.Split(s, ",") {
+	for _, t := range strings.FieldsFunc(s, func(r rune) bool { return r == ',' || r == ' ' || r == '\t' }) {
 		t = strings.TrimSpace(t)
 		if t != "" {
 			out = append(out, t)
